@@ -129,6 +129,7 @@ def windows(thorough):
         (sec(92, 700), sec(95)),            # starts 200 us after the sub-ms event ended, same millisecond
         (sec(-100), sec(-1, 999500)),       # ends half a millisecond before the first event starts (inside the read's rounding slack)
         (sec(96, 400), sec(97, 100)),
+        (sec(250), sec(260)),               # behind the short event, inside the long one written before it
     ]
     if thorough:
         for a in range(-5, 80, 17):
@@ -151,6 +152,11 @@ def seed(ds):
     # events sharing one timestamp (ties): consecutive reads must agree on their order, too
     ds["b1"].insert([Event(timestamp=T0 + timedelta(seconds=33), duration=timedelta(0), data={"app": "Tie", "title": f"tie {k}", "url": "http://t/"}) for k in range(3)])
     ds["b2"].insert(Event(timestamp=T0 + timedelta(seconds=25), duration=timedelta(seconds=2), data={"status": "tie"}))
+    # a long event written BEFORE a short one that it outlasts (insertion order is not end order): a window
+    # behind the short one still touches the long one (seeded: the memory count walked backwards and stopped
+    # at the first event that had ended before the window)
+    ds["b2"].insert(Event(timestamp=T0 + timedelta(seconds=200), duration=timedelta(seconds=100), data={"status": "long"}))
+    ds["b2"].insert(Event(timestamp=T0 + timedelta(seconds=210), duration=timedelta(seconds=1), data={"status": "short"}))
 
 
 def full_dump(ds):
@@ -226,6 +232,13 @@ def _unit(args):
                 u.violation(f"{backend}:query_bucket-differs-from-windowed-read", f"{backend} bucket {bid} window {a.isoformat()}..{b.isoformat()}: query_bucket {got} direct read {want}", {"backend": backend, "bucket": bid, "window": [a.isoformat(), b.isoformat()], "kind": "scope"}, size=wi)
             n = query2.query("q", f'RETURN = query_bucket_eventcount("{bid}");', a, b, ds)
             m = ds[bid].get_eventcount(a, b)
+            # "the matching count": for windows whose edges are whole milliseconds and at least 2 ms away from
+            # every event edge (no rounding slack involved) it is the number of events the read returns
+            a_us, b_us = S.us_of(a), S.us_of(b)
+            if a_us % 1000 == 0 and b_us % 1000 == 0:
+                edges = [x for t in S.dump_bucket(ds, bid) for x in (t[1], t[1] + t[2])]
+                if all(abs(x - w) >= 2000 for x in edges for w in (a_us, b_us)) and n != len(got):
+                    u.violation(f"{backend}:eventcount-differs-from-number-of-events-read", f"{backend} bucket {bid} window {a.isoformat()}..{b.isoformat()}: query_bucket_eventcount {n}, query_bucket returns {len(got)} events", {"backend": backend, "bucket": bid, "window": [a.isoformat(), b.isoformat()], "kind": "scope"}, size=wi)
             if n != m:
                 u.violation(f"{backend}:eventcount-differs-from-windowed-count", f"{backend} bucket {bid} window {a.isoformat()}..{b.isoformat()}: query_bucket_eventcount {n} direct count {m}", {"backend": backend, "bucket": bid, "window": [a.isoformat(), b.isoformat()], "kind": "scope"}, size=wi)
     # the store changes BETWEEN queries (insert, delete, replace, bucket deleted and re-created):
